@@ -15,6 +15,7 @@ RULE = ("Hypothesis: well-formed notes on 2 channels over 2-3 pitches (same pitc
         "durations sum to the source's, no anomaly (unclosed note) inside any piece, on a common clock the sounding set with "
         "velocities and the non-note events with ticks equal the source's; source content unchanged in both views. "
         "Non-trivial: a note crosses a boundary or an event sits exactly on a boundary. Distinct by case digest.")
+RULE = RULE + " Rounds e-g: rests written as two WAITs, several control changes per tick, SEQUENCE_CONTROL noise, channel pools, silent notes, far tick shifts, self-concatenated inputs split at their period."
 ASSUMPTIONS = ["an event exactly on a boundary may be in either adjacent piece (same absolute tick)"]
 TIERS = {"quick": dict(shards=8, examples=1500, alt_ppqn=[480], alt_shards=2),
          "thorough": dict(fuzz_runs=20000, fuzz_shards=4, size=2, shards=16, examples=25000, alt_ppqn=[480, 7, 1000], alt_shards=2)}
@@ -23,7 +24,7 @@ TIERS = {"quick": dict(shards=8, examples=1500, alt_ppqn=[480], alt_shards=2),
 @st.composite
 def _case(draw, size=1):
     pitches = draw(gens.pitch_pool([(60, 61), (60, 61, 62), (60,)]))
-    notes = draw(gens.wellformed_notes(channels=(0, 1), pitches=pitches, max_notes=8 * size, max_len=70, max_gap=30))
+    notes = draw(gens.wellformed_notes(channels="pool", pitches=pitches, max_notes=8 * size, max_len=70, max_gap=30))
     end_n = max([n[3] for n in notes] + [0])
     ticks_pool = sorted({0, end_n} | {n[2] for n in notes} | {n[3] for n in notes})
     meta = draw(st.one_of(gens.meta_events(max_tick=max(end_n, 1), max_events=3, with_noise=True),
@@ -47,6 +48,11 @@ def _case(draw, size=1):
         caps.pop()
     elif tail == "hit-end" and sum(caps) < d:
         caps.append(d - sum(caps))
+    if spec.get("double") and draw(st.booleans()):
+        caps = [max(1, d)] if draw(st.booleans()) else [max(1, d), max(1, d)]
+    sh = gens.far_shift(draw, spec)
+    if sh and caps:
+        caps[0] += sh          # the content sits far from tick 0; boundaries keep their place relative to it
     return {"seq": spec, "caps": caps}
 
 
